@@ -25,6 +25,7 @@ import (
 	"math/rand/v2"
 	"net/http/httptest"
 	"os"
+	"sort"
 	"strconv"
 	"strings"
 	"sync"
@@ -634,10 +635,25 @@ func runCase(n int, c *Case, st *stats) map[string]any {
 	var rd io.Reader = bytes.NewReader(raw)
 	useGz := c.GzipOK && !c.EofData && g.r.IntN(3) == 0
 	if useGz {
+		// a gzip body is a sequence of members (RFC 1952, 2.2) and decodes to their concatenation: half of the gzip
+		// requests are cut into 2-3 members at arbitrary bytes (in the middle of a line too), an empty member included
 		var zb bytes.Buffer
-		zw, _ := gzip.NewWriterLevel(&zb, 1+g.r.IntN(9))
-		zw.Write(raw)
-		zw.Close()
+		cuts := []int{len(raw)}
+		if len(raw) > 0 && g.r.IntN(2) == 0 {
+			cuts = nil
+			for k := g.r.IntN(2) + 1; k > 0; k-- {
+				cuts = append(cuts, g.r.IntN(len(raw)+1))
+			}
+			sort.Ints(cuts)
+			cuts = append(cuts, len(raw))
+		}
+		prev := 0
+		for _, cut := range cuts {
+			zw, _ := gzip.NewWriterLevel(&zb, 1+g.r.IntN(9))
+			zw.Write(raw[prev:cut])
+			zw.Close()
+			prev = cut
+		}
 		rd = bytes.NewReader(zb.Bytes())
 		st.gz++
 	}
